@@ -87,3 +87,13 @@ package parse
 // g.Wait() failing, a compiled-model merge failing or a syntax error all end the compile with (nil, err)
 //@ func (*Parser).parseSpecs
 //@   errprop-nil Group).Wait mergo.Merge parse.parseString
+
+// ---- C01 / C07: parser panics become a ParseError; per-parse lexer state is always released
+
+//@ func parseString
+//@   structure recover-first
+//@   structure defers grammar.DeleteLexerState after grammar.NewThreadSafeSyslLexer
+
+// the deferred recovery: if a panic was recovered, the named result err is set (non-nil)
+//@ func parseString$1
+//@   ensures [panic-becomes-error] ghost("recovered") ==> err != nil
